@@ -10,9 +10,12 @@ EXTENDS Integers, Sequences, FiniteSets, TLC
 \* the dedicated one is the one that counts (C05's rule for literal / pattern)
 \* "pK": a pattern that is a lone constant path, K4 (= 4)
 \* "ln1": the literal -1 (two tokens: punct + literal); "pn10": the range -1..=0 ("s-1" | "s0"); "px13": the half-open range 1..3 (integers only)
-Items == {"l0", "l1", "l2", "l3", "lK", "p13", "p24", "ple1", "pall", "pK", "dl1", "dp13", "ln1", "pn10", "px13"}
-IsLit(it) == it \in {"l0", "l1", "l2", "l3", "lK", "dl1", "ln1"}
-LitVal(it) == CASE it = "l0" -> 0 [] it = "l1" -> 1 [] it = "l2" -> 2 [] it = "l3" -> 3 [] it = "lK" -> 2 [] it = "dl1" -> 1 [] it = "ln1" -> -1
+\* "lg1": the literal 1, dedicated to the primitive, on a variant that is also #[ghost(Other)] for a SECOND counterpart enum (the type then carries
+\* #[from_owned(Other)] as well and every literal / pattern is written in dedicated form): what concerns Other must not touch the primitive's arms (C06)
+Items == {"l0", "l1", "l2", "l3", "lK", "p13", "p24", "ple1", "pall", "pK", "dl1", "dp13", "ln1", "pn10", "px13", "lg1"}
+IsLit(it) == it \in {"l0", "l1", "l2", "l3", "lK", "dl1", "ln1", "lg1"}
+Two(in) == \E i \in DOMAIN in.vs : in.vs[i] = "lg1"
+LitVal(it) == CASE it = "l0" -> 0 [] it = "l1" -> 1 [] it = "l2" -> 2 [] it = "l3" -> 3 [] it = "lK" -> 2 [] it = "dl1" -> 1 [] it = "ln1" -> -1 [] it = "lg1" -> 1
 Matches(it, prim, x) ==
   CASE IsLit(it)   -> x = LitVal(it)
     [] it \in {"p13", "dp13"} -> IF prim = "int" THEN x >= 1 /\ x <= 3 ELSE x \in {1, 3}
@@ -37,6 +40,7 @@ IntoExp(in, i) == IF IsLit(in.vs[i]) THEN LitVal(in.vs[i]) ELSE 70 + i
 RoundTrip(in, i) == FromExp(in, IntoExp(in, i))
 
 WellFormed(in) == /\ Len(in.vs) >= 1
+                  /\ (Two(in) => \A i \in DOMAIN in.vs : in.vs[i] \notin {"dl1", "dp13"})     \* their default literal would concern Other too
                   /\ (in.prim = "str" => \A i \in DOMAIN in.vs : in.vs[i] \notin {"ple1", "lK", "pK", "px13"})
 \* design-level theorem of the statement: with pairwise distinct literals and no pattern in front of a literal variant, the round trip is the identity
 DistinctLits(in) == \A i, j \in DOMAIN in.vs : i # j /\ IsLit(in.vs[i]) /\ IsLit(in.vs[j]) => LitVal(in.vs[i]) # LitVal(in.vs[j])
